@@ -57,6 +57,13 @@ def requests(tier, rng):
                 v = [[sp[(j + 3 * i) % len(sp)] for j in range(256)] for i in range(n)]
                 v[rng.randrange(n)] = [0] * 256
                 add("polyvec::%s::%s %s" % (lv, fn, V(v)), ["%s %s" % (pfn, fmt(p)) for p in v], fn)
+                # rows that lie entirely inside the operation's own output range (reduce32: [-6283009, 6283007], caddq: [0, q),
+                # ...) but not in the part of it where the operation is the identity: a "nothing to do for this row" shortcut
+                md = [x for x in (2**22, -2**22, 2**22 + 1, -2**22 - 1, 6283007, -6283009, 5000000, -5000000, 4190208, -4190209, 0, 1, -1, 8191, 8192)
+                      if lo <= x <= hi]
+                if len(md) >= 4:
+                    v = [[md[(j * 5 + i) % len(md)] for j in range(256)] for i in range(n)]
+                    add("polyvec::%s::%s %s" % (lv, fn, V(v)), ["%s %s" % (pfn, fmt(p)) for p in v], fn)
             for (fn, n, pfn, lo, hi) in [("l_add", l, "poly::add_ip", -2**29, 2**29), ("k_add", k, "poly::add_ip", -2**29, 2**29),
                                           ("k_sub", k, "poly::sub_ip", -2**29, 2**29)]:
                 w = [rpoly(rng, lo, hi) for _ in range(n)]; v = [rpoly(rng, lo, hi) for _ in range(n)]
